@@ -150,7 +150,8 @@ def native_build(job, cfile, wd, which):
         r = sh(['gcc', '-O1', '-w', '-c', '-DVERIF_ENTRY=f_' + job.entry, os.path.join(RT, 'native.c'), '-o', nobj])
         if r['rc']: return None, r['err']
         shims = [p for p in shim_paths(job)]
-        r = sh(['gcc', '-O1', '-w', '-fno-strict-aliasing', '-DVERIF_NATIVE', '-I', RT, cfile] + shims + [nobj, '-o', exe], timeout=300)
+        dflags = [a for a in job.cbmc if a.startswith('-D')]
+        r = sh(['gcc', '-O1', '-w', '-fno-strict-aliasing', '-DVERIF_NATIVE', '-I', RT, cfile] + dflags + shims + [nobj, '-o', exe], timeout=300)
     else:
         r = sh(['gcc', '-O1', '-w', '-c', '-DVERIF_ENTRY=' + job.entry, os.path.join(RT, 'native.c'), '-o', nobj])
         if r['rc']: return None, r['err']
@@ -308,7 +309,7 @@ def main(argv):
     try:
         # machine-wide memory budget shared by every ./check process (several may run at once): a flock-protected ledger
         import fcntl
-        LEDGER = os.environ.get('VERIF_MEM_LEDGER', '/tmp/verif_mem_ledger.json'); TOTAL = float(os.environ.get('VERIF_MEM_GB', '52'))
+        LEDGER = os.environ.get('VERIF_MEM_LEDGER', '/tmp/verif_mem_ledger.json'); TOTAL = float(os.environ.get('VERIF_MEM_GB', '56'))
         def ledger(update):
             with open(LEDGER, 'a+') as f:
                 fcntl.flock(f, fcntl.LOCK_EX)
